@@ -209,6 +209,12 @@ func (d *Driver) handleCallbacks(
 
 	select {
 	case r := <-c:
+		if r == nil {
+			// the reader goroutine left because the timeout expired and closed c on its way out: both
+			// cases of this select are ready then, and this one may be the one that is taken
+			return nil, fmt.Errorf("%w: timeout handling callbacks", util.ErrTimeoutError)
+		}
+
 		if r.err != nil {
 			return nil, r.err
 		}
